@@ -46,6 +46,10 @@ PadOK(ev) ==
 \* no live matrix other than the operands changed
 NoStray(ev) == Len(ev.stray) = 0
 
+\* C11: every temporary allocated by a call is released again: the number of live heap blocks changes
+\* exactly by what the call returned (the harness computes leak = change - returned; exact in builds
+\* without the allocator caches, 0 is logged otherwise)
+
 \* a call that ended in the library's error handler must not have touched anything
 DieClean(ev) == ev.die = 0 \/ \A o \in Opnds(ev) : o.pre = o.post
 
@@ -219,12 +223,18 @@ ResultOK(ev) ==
 
 Known(ev) == ev.op \in MulFamily \cup MoveFamily \cup RowOpsFamily \cup ObsFamily \cup AlgFamily \cup WordKernelFamily \cup IOFamily
 
+\* C11: a checked wrapper called with incompatible dimensions must end in the error handler (die = 1)
+\* with every operand untouched
+ExpectDie(ev) == ev.op = "baddims"
 Checks(ev) ==
-  IF ev.die = 1
+  IF ExpectDie(ev)
+  THEN (IF ev.die = 1 THEN {} ELSE {"no_die_on_bad_dimensions"}) \cup (IF DieClean(ev) /\ FrameOK(ev) /\ \A o \in Opnds(ev) : o.pre = o.post THEN {} ELSE {"die_touched"})
+  ELSE IF ev.die = 1
   THEN (IF DieClean(ev) THEN {} ELSE {"die_touched"}) \cup {"unexpected_die"}
   ELSE (IF FrameOK(ev) THEN {} ELSE {"frame"})
        \cup (IF PadOK(ev) THEN {} ELSE {"padding"})
        \cup (IF NoStray(ev) THEN {} ELSE {"stray"})
+       \cup (IF ev.leak = 0 THEN {} ELSE {"leak"})
        \cup (IF ~Known(ev) THEN {"unknown_op"} ELSE IF ResultOK(ev) THEN {} ELSE {"result"})
 
 -----------------------------------------------------------------------------
